@@ -23,6 +23,7 @@ from vmon import env
 from vmon.result import Rec, h
 
 KNOWN = os.path.join(env.VERIF, "known_findings.txt")
+OUT = os.environ.get("VMON_OUT", env.VERIF)  # evidence/ and replays/ go here (self-tests redirect it)
 WORKERS = int(os.environ.get("VMON_WORKERS", "16"))
 
 
@@ -150,7 +151,7 @@ def load_known() -> tuple[list[dict], list[dict]]:
 
 
 def write_replay(pid: str, v: dict, tier: str, seed: int) -> str:
-    d = os.path.join(env.VERIF, "replays", pid)
+    d = os.path.join(OUT, "replays", pid)
     os.makedirs(d, exist_ok=True)
     path = os.path.join(d, h(v["case"]) + ".json")
     with open(path, "w") as f:
@@ -249,8 +250,8 @@ def main(argv: list[str]) -> int:
         "assumptions": list(getattr(prop, "ASSUMPTIONS", [])), "wall_s": round(wall, 2),
         "violations": len(new),
     }
-    os.makedirs(os.path.join(env.VERIF, "evidence"), exist_ok=True)
-    with open(os.path.join(env.VERIF, "evidence", f"{pid}.json"), "w") as f:
+    os.makedirs(os.path.join(OUT, "evidence"), exist_ok=True)
+    with open(os.path.join(OUT, "evidence", f"{pid}.json"), "w") as f:
         json.dump(evidence, f, indent=1, default=str, sort_keys=False)
 
     print(f"{pid} {tier} seed={seed}: evaluations={agg['evaluations']} distinct_nontrivial={n_distinct} "
